@@ -157,6 +157,12 @@ def plan(rng, quick):
     for w in range(0, 33):                                   # dictionary index widths 0..32 x run pattern
         for runs in (("rle", "bp", "mix") if not quick else (["rle", "bp", "mix"][w % 3], "bp")):
             out.append(("dict", DICTABLE[(w * 3 + len(out)) % len(DICTABLE)], {"index_width": w, "index_runs": runs}))
+    big = [x for x in TYPES if x[0] in ("int32", "int64", "uint32", "ts_us", "double", "bytes")]
+    for w in (7, 8, 9, 10, 16):                               # dictionaries that FILL the index range of their width
+        for v2 in (False, True):
+            for runs in (("mix",) if quick else ("rle", "bp", "mix")):
+                out.append(("dict", big[(w + len(out)) % len(big)], {"index_width": w, "index_runs": runs, "v2": v2, "dict_fill": True,
+                                                                      "dict_shuffle": True}))
     wide32 = [x for x in DELTA_TYPES if x[0] in ("int32", "uint32")]
     wide64 = [x for x in DELTA_TYPES if x[0] in ("int64", "uint64")]
     for w in range(0, 65):                                   # delta miniblock widths 0..64
@@ -190,9 +196,14 @@ def gen_file(rng, idx, fam, t, forced):
     pool = None
     if "index_width" in forced:
         k = min(2 ** forced["index_width"], rng.choice([2, 5, 20]))
+        if forced.get("dict_fill"):
+            k = min(2 ** forced["index_width"], 700)
+            n = max(n, 2 * k)
         pool = []
-        for _ in range(200):
-            v = gen_value(rng, tname, small)
+        for _ in range(200 if not forced.get("dict_fill") else 20 * k):
+            v = gen_value(rng, tname, small) if not forced.get("dict_fill") else (
+                rng.randrange(0, 1 << 31) if ptype in (1, 2) else
+                struct.unpack("<Q", struct.pack("<d", rng.random()))[0] if ptype == 5 else bytes(rng.randrange(256) for _ in range(3)))
             if v not in pool:
                 pool.append(v)
             if len(pool) >= k:
@@ -219,7 +230,7 @@ def gen_file(rng, idx, fam, t, forced):
         elif "delta_width" in forced:
             cells.append(pool[r])
         elif pool is not None:
-            cells.append(rng.choice(pool))
+            cells.append(pool[r % len(pool)] if forced.get("dict_fill") and r < len(pool) else rng.choice(pool))
         else:
             cells.append(gen_value(rng, tname, small))
     md = 1 if optional else 0
@@ -244,7 +255,7 @@ def gen_file(rng, idx, fam, t, forced):
         ch["encoding"] = 5
         ch["delta_shape"] = rng.choice([(128, 4), (8, 1), (256, 2), (64, 8)])
         ch["delta_extra"] = rng.choice([0, 0, 1, 3])
-    ch.update(forced)
+    ch.update({k_: v_ for k_, v_ in forced.items() if k_ != "dict_fill"})
     if ch["v2"]:
         ch["v2_compressed"] = rng.random() < 0.7
         ch["v2_omit_flag"] = rng.random() < 0.3
